@@ -29,15 +29,21 @@ invocations and SecurityError.
 from __future__ import annotations
 
 import functools
+import json
 
 PID = "C18"
 LEVEL = "exploration"
-TECHNIQUE = "recording unsafe callables with an unmarked control twin over a composed reach-path grammar"
+TECHNIQUE = ("recording unsafe callables with an unmarked control twin over a composed reach-path grammar; "
+             "state-model monitor over multi-step mark/policy histories on one environment")
 RULE = ("case = (obtain form x alias wrapper x call site x argument form x callable kind x mark "
         "x environment kind x sync/async); base coverage enumerates every (site, kind, mark) and "
         "every (obtain, wrapper, mark) once, the rest is seeded sampling of the product; a case is "
         "counted as distinct and non-trivial only when the control twin (same construction, no "
-        "mark) is actually invoked by the template")
+        "mark) is actually invoked by the template; histories = (callable kind x environment kind x "
+        "sync/async x (mark, scope own/shared) x 7 step patterns) enumerated once with sampled "
+        "reach-path templates, plus seeded random step sequences of length 2-6, each on one fresh "
+        "environment; a history is distinct by its kind, environment, step list and the templates "
+        "used, and is counted only when its templates reach both unmarked sibling callables")
 LEVEL_TEXT = ("held on every reached case: 0 invocations of the marked callable and SecurityError "
               "raised, over the composed grammar of reach paths (not exhaustive over all templates); "
               "on every enumerated/sampled multi-step history on one environment each call was allowed "
@@ -49,7 +55,7 @@ ASSUMPTIONS = [
     "histories also require the reverse direction: once a mark or deny-list entry is removed the call must be let through again (reported under history-wrongly-blocked keys)",
 ]
 NSHARDS = {"quick": 16, "thorough": 16}
-BUDGET_S = {"quick": 14, "thorough": 300}
+BUDGET_S = {"quick": 16, "thorough": 300}
 FLOORS = {
     "quick": {"evaluations": 6000, "distinct": 3000,
               "counters": {"twin_invocations": 3000, "marked_renders": 3000,
@@ -478,6 +484,564 @@ def random_case(rng):
             return c
 
 
+# ---------------------------------------------------------------- histories
+HKINDS = ["func", "lambda", "method", "classmethod", "staticmethod", "callable_obj",
+          "partial", "klass", "pass_context", "pass_environment", "pass_eval_context",
+          "async_func", "async_def"]
+ASYNC_ONLY = ("async_func", "async_def")
+SHARED_FUNC_KINDS = ("method", "classmethod", "staticmethod")
+# both siblings in one render; fa/oa = first, fb/ob = second
+FORMS2 = {
+    "seq_name": "{{ fa(ARGS) }}{{ fb(ARGS) }}",
+    "seq_attr": "{{ oa.m(ARGS) }}{{ ob.m(ARGS) }}",
+    "loop_attr": "{% for x in [oa, ob] %}{{ x.m(ARGS) }}{% endfor %}",
+    "loop_name": "{% for g in [fa, fb] %}{{ g(ARGS) }}{% endfor %}",
+    "macro_param": "{% macro w(g) %}{{ g(ARGS) }}{% endmacro %}{{ w(fa) }}{{ w(fb) }}",
+    "reset_alias": "{% set g = fa %}{{ g(ARGS) }}{% set g = fb %}{{ g(ARGS) }}",
+    "filter_args": "{{ [1]|join(fa(ARGS)) }}{{ 1|default(fb(ARGS)) }}",
+    "call_block": "{% macro w(g) %}{{ g(ARGS) }}{{ caller() }}{% endmacro %}"
+                  "{% call w(fa) %}{{ fb(ARGS) }}{% endcall %}",
+    "dict_items": "{% for k, g in {'a': fa, 'b': fb}|dictsort %}{{ g(ARGS) }}{% endfor %}",
+    "one_expr": "{{ [oa.m(ARGS), ob.m(ARGS)]|length }}",
+}
+PATTERNS = ["late_mark", "unmark", "sibling_between", "blocked_first", "one_render",
+            "interleaved", "sibling_then_mark"]
+
+
+class Target:
+    __slots__ = ("o", "own", "rec")
+
+
+class Family:
+    """Two sibling callables A and B.  t[T].o.m is the callable of T; own is
+    the object carrying per-target marks (None if there is none); shared is
+    the object whose marks apply to both."""
+
+    def __init__(self, kind):
+        self.kind = kind
+        self.t = {}
+        self.shared = None
+
+    def holder(self, scope):
+        return self.shared if scope == "shared" else self.t[scope].own
+
+    def reset(self):
+        for t in self.t.values():
+            t.rec.calls = 0
+
+    def data(self, T):
+        o = self.t[T].o
+        f = o.m
+        return {"f": f, "o": o, "d": {"f": f, "k": {"g": f}}, "l": [f], "t": (f,),
+                "nested": [{"f": [f]}]}
+
+    def data2(self, first, second):
+        oa, ob = self.t[first].o, self.t[second].o
+        return {"fa": oa.m, "fb": ob.m, "oa": oa, "ob": ob}
+
+
+def make_family(kind, tag):
+    from jinja2 import pass_context, pass_environment, pass_eval_context
+
+    fam = Family(kind)
+    recs = {"A": Rec(), "B": Rec()}
+
+    class Holder:
+        pass
+
+    def add(T, o, own, rec=None):
+        t = Target()
+        t.o, t.own, t.rec = o, own, rec or recs[T]
+        fam.t[T] = t
+
+    if kind == "method":
+        class O:
+            def m(self, *a, **k):
+                self.vt_rec.calls += 1
+                return Ret(1)
+        fam.shared = vars(O)["m"]
+        fam.shared.vt_name = tag + "S"
+        for T in "AB":
+            o = O()
+            o.vt_rec = recs[T]
+            add(T, o, o)
+    elif kind == "classmethod":
+        def cm(cls, *a, **k):
+            cls.vt_rec.calls += 1
+            return Ret(1)
+        cm.vt_name = tag + "S"
+
+        class Root:
+            m = classmethod(cm)
+        fam.shared = cm
+        for T in "AB":
+            K = type("K" + T, (Root,), {"vt_rec": recs[T]})
+            add(T, K(), K)
+    elif kind == "staticmethod":
+        rec = recs["A"]
+
+        def sm(*a, **k):
+            rec.calls += 1
+            return Ret(1)
+        sm.vt_name = tag + "S"
+
+        class OS:
+            m = staticmethod(sm)
+        fam.shared = sm
+        for T in "AB":
+            add(T, OS(), None, rec)
+    elif kind == "callable_obj":
+        class CO:
+            def __call__(self, *a, **k):
+                self.vt_rec.calls += 1
+                return Ret(1)
+        fam.shared = CO
+        for T in "AB":
+            inst = CO()
+            inst.vt_rec = recs[T]
+            inst.vt_name = tag + T
+            o = Holder()
+            o.m = inst
+            add(T, o, inst)
+    else:
+        def pt(rec, *a, **k):
+            rec.calls += 1
+            return Ret(1)
+
+        def mk(rec):
+            if kind == "func":
+                def f(*a, **k):
+                    rec.calls += 1
+                    return Ret(1)
+            elif kind == "lambda":
+                def bump():
+                    rec.calls += 1
+                    return Ret(1)
+                f = lambda *a, **k: bump()      # noqa: E731
+            elif kind == "partial":
+                f = functools.partial(pt, rec)
+            elif kind == "klass":
+                class f(int):
+                    def __new__(cls, *a, **k):
+                        rec.calls += 1
+                        return int.__new__(cls, 1)
+
+                    def __call__(self, *a, **k):
+                        return 1
+
+                    def __getitem__(self, i):
+                        return 1
+
+                    def __iter__(self):
+                        return iter([1])
+            elif kind == "pass_context":
+                @pass_context
+                def f(c, *a, **k):
+                    rec.calls += 1
+                    return Ret(1)
+            elif kind == "pass_environment":
+                @pass_environment
+                def f(e, *a, **k):
+                    rec.calls += 1
+                    return Ret(1)
+            elif kind == "pass_eval_context":
+                @pass_eval_context
+                def f(e, *a, **k):
+                    rec.calls += 1
+                    return Ret(1)
+            elif kind == "async_func":
+                def f(*a, **k):
+                    rec.calls += 1
+
+                    async def co():
+                        return Ret(1)
+                    return co()
+            elif kind == "async_def":
+                async def f(*a, **k):
+                    rec.calls += 1
+                    return Ret(1)
+            else:
+                raise AssertionError(kind)
+            return f
+        for T in "AB":
+            f = mk(recs[T])
+            f.vt_name = tag + T
+            o = Holder()
+            o.m = f
+            add(T, o, f)
+    return fam
+
+
+def changes_for(kind, envkind):
+    """(mark, scope) pairs whose effect on the verdict of A and B is known by
+    construction: scope T -> only T becomes forbidden, shared -> both."""
+    ov = envkind == "override"
+    basic = ["unsafe", "alters"] + (["forbid", "deny"] if ov else [])
+    if kind in SHARED_FUNC_KINDS:
+        out = [(m, "shared") for m in basic]
+        if ov and kind != "staticmethod":
+            out += [("freeze", "A"), ("freeze", "B")]
+    elif kind == "callable_obj":
+        out = [(m, T) for m in basic + (["freeze"] if ov else []) for T in "AB"]
+        out += [(m, "shared") for m in ["unsafe", "alters"] + (["forbid"] if ov else [])]
+    else:
+        out = [(m, T) for m in basic for T in "AB"]
+    return out
+
+
+def set_mark(fam, env, mark, scope):
+    """Applies the change; returns the function that takes it back (None if
+    the mark cannot be taken back through observable means)."""
+    from jinja2.sandbox import unsafe
+
+    h = fam.holder(scope)
+    if mark == "unsafe":
+        before = set(vars(h))
+        unsafe(h)
+        added = sorted(set(vars(h)) - before)
+        if not added:
+            return None
+
+        def undo():
+            for a in added:
+                delattr(h, a)
+    elif mark == "alters":
+        h.alters_data = True
+        if fam.shared is None and scope == "B":
+            def undo():
+                h.alters_data = False
+        else:
+            def undo():
+                del h.alters_data
+    elif mark == "forbid":
+        h.vt_forbidden = True
+
+        def undo():
+            del h.vt_forbidden
+    elif mark == "freeze":
+        h.vt_frozen = True
+
+        def undo():
+            del h.vt_frozen
+    elif mark == "deny":
+        name = h.vt_name
+        env.vt_denied = set(env.vt_denied) | {name}
+
+        def undo():
+            env.vt_denied = set(env.vt_denied) - {name}
+    else:
+        raise AssertionError(mark)
+    return undo
+
+
+def hist_render(env, tmpl_cache, source, templates, data):
+    from jinja2 import DictLoader
+    from jinja2.exceptions import SecurityError
+
+    env.loader = DictLoader(dict(templates))
+    try:
+        t = tmpl_cache.get(source)
+        if t is None:
+            t = tmpl_cache[source] = env.from_string(source)
+        out = t.render(**data)
+        exc = None
+    except SecurityError as e:
+        out, exc = None, ("SecurityError", str(e)[:200])
+    except Exception as e:
+        out, exc = None, (type(e).__name__, str(e)[:200])
+    return out, exc
+
+
+def compose2(form, args):
+    return FORMS2[form].replace("ARGS", args)
+
+
+_reach = {}
+
+
+def tc_reaches(tc, kind, envkind, is_async):
+    """True if the template (single-target case dict or [form, args] pair)
+    invokes both unmarked siblings and renders without any exception."""
+    key = json.dumps([tc, kind, envkind, is_async], sort_keys=True)
+    r = _reach.get(key)
+    if r is None:
+        fam = make_family(kind, "t")
+        if isinstance(tc, dict):
+            if not valid(dict(tc, kind=kind, mark="unsafe", env=envkind)) or \
+                    (tc["wrap"] == "aloop" and not is_async):
+                r = False
+            else:
+                source, templates = compose(tc)
+                r = True
+                for T in "AB":
+                    fam.reset()
+                    _, exc = hist_render(get_env(envkind, is_async, {}), {}, source,
+                                         templates, fam.data(T))
+                    r = r and exc is None and fam.t[T].rec.calls > 0
+        else:
+            source = compose2(*tc)
+            _, exc = hist_render(get_env(envkind, is_async, {}), {}, source, {},
+                                 fam.data2("A", "B"))
+            r = exc is None and all(t.rec.calls > 0 for t in fam.t.values())
+        _reach[key] = r
+    return r
+
+
+def pick_tc(rng, kind, envkind, is_async):
+    for _ in range(8):
+        tc = {"obtain": rng.choice(list(OBTAIN)), "wrap": rng.choice(list(WRAP)),
+              "site": rng.choice(list(SITES)), "args": rng.choice(ARGS), "async": is_async}
+        if tc_reaches(tc, kind, envkind, is_async):
+            return tc
+    return {"obtain": "name", "wrap": "none", "site": "print", "args": "", "async": is_async}
+
+
+def pick_form(rng, kind, envkind, is_async):
+    for _ in range(8):
+        tc = [rng.choice(list(FORMS2)), rng.choice(ARGS)]
+        if tc_reaches(tc, kind, envkind, is_async):
+            return tc
+    return ["seq_name", ""]
+
+
+def pattern_steps(pattern, change, X, Y):
+    m, s = change
+    mark, unmark = ["mark", m, s], ["unmark", m, s]
+    if pattern == "late_mark":
+        return [["call", X, 0], mark, ["call", X, 0]]
+    if pattern == "unmark":
+        return [mark, ["call", X, 0], unmark, ["call", X, 0]]
+    if pattern == "sibling_between":
+        return [mark, ["call", Y, 0], ["call", X, 0], ["call", Y, 1]]
+    if pattern == "blocked_first":
+        return [mark, ["call", X, 0], ["call", Y, 0], ["call", X, 1]]
+    if pattern == "one_render":
+        return [["call2", X + Y, 0], mark, ["call2", Y + X, 0], ["call2", X + Y, 1]]
+    if pattern == "interleaved":
+        return [["call", X, 0], ["other", 1], mark, ["other", 0], ["call", X, 1], unmark,
+                ["call", X, 0]]
+    if pattern == "sibling_then_mark":
+        return [["call", Y, 0], mark, ["call", X, 0], ["call", Y, 0]]
+    raise AssertionError(pattern)
+
+
+def history_index():
+    """Deterministic list of (kind, env, async, change, pattern)."""
+    out = []
+    i = 0
+    for kind in HKINDS:
+        for envkind in ENVS:
+            for change in changes_for(kind, envkind):
+                for pattern in PATTERNS:
+                    i += 1
+                    out.append((kind, envkind, kind in ASYNC_ONLY or i % 3 == 0, change, pattern))
+    return out
+
+
+def build_history(rng, kind, envkind, is_async, steps):
+    return {"hist": True, "kind": kind, "env": envkind, "async": is_async,
+            "tcs": [pick_tc(rng, kind, envkind, is_async) for _ in range(2)],
+            "forms": [pick_form(rng, kind, envkind, is_async) for _ in range(2)],
+            "steps": steps}
+
+
+def random_history(rng):
+    kind = rng.choice(HKINDS)
+    envkind = rng.choice(ENVS + ["override"])
+    is_async = kind in ASYNC_ONLY or rng.random() < 0.3
+    changes = changes_for(kind, envkind)
+    active = []
+    steps = []
+    n = rng.randint(2, 6)
+    while len(steps) < n:
+        r = rng.random()
+        last = len(steps) == n - 1
+        if last or r < 0.45:
+            if rng.random() < 0.25:
+                steps.append(["call2", rng.choice(["AB", "BA"]), rng.randrange(2)])
+            else:
+                steps.append(["call", rng.choice("AB"), rng.randrange(2)])
+        elif r < 0.70 or not active:
+            free = [c for c in changes if c not in active]
+            if free:
+                c = rng.choice(free)
+                active.append(c)
+                steps.append(["mark", c[0], c[1]])
+        elif r < 0.88:
+            c = active.pop(rng.randrange(len(active)))
+            steps.append(["unmark", c[0], c[1]])
+        else:
+            steps.append(["other", rng.randrange(2)])
+    return build_history(rng, kind, envkind, is_async, steps)
+
+
+def run_history(ctx, spec, count=True):
+    """Executes one history on one fresh environment -> True if counted."""
+    kind, envkind, is_async = spec["kind"], spec["env"], spec["async"]
+    tcs, forms = spec["tcs"], [list(f) for f in spec["forms"]]
+    used_tc = sorted({s[2] for s in spec["steps"] if s[0] == "call"} |
+                     {s[1] for s in spec["steps"] if s[0] == "other"})
+    used_f = sorted({s[2] for s in spec["steps"] if s[0] == "call2"})
+    if not all(tc_reaches(tcs[i], kind, envkind, is_async) for i in used_tc) or \
+            not all(tc_reaches(forms[i], kind, envkind, is_async) for i in used_f):
+        if count:
+            ctx.count("history_unreached")
+        return False
+    env = new_env(envkind, is_async)
+    fam = make_family(kind, "p")
+    fam_ok = make_family(kind, "q")          # unrelated family, never marked
+    fam_bad = make_family(kind, "r")         # unrelated family, marked from the start
+    for T in "AB":
+        sc = T if fam_bad.t[T].own is not None and kind not in ("method", "classmethod") else "shared"
+        if getattr(fam_bad.holder(sc), "alters_data", False) is not True:
+            set_mark(fam_bad, env, "alters", sc)
+    cache = {}
+    active = {}              # (mark, scope) -> undo
+    trace = []
+    last_change = "none"
+    prior = {}               # target -> "allowed" / "blocked" of its latest call
+    last_call = None
+    nrender = 0
+    flips = {"allow_to_block": 0, "block_to_allow": 0}
+
+    def allowed(T):
+        return not any(s in (T, "shared") for (_m, s) in active)
+
+    def rel(scope, T):
+        return "shared" if scope == "shared" else ("own" if scope == T else "sibling")
+
+    def judge(T, exp_allowed, invoked, exc, source, templates, label):
+        sec = exc is not None and exc[0] == "SecurityError"
+        pr = "none"
+        if last_call is not None:
+            pr = prior[last_call] + ("-own" if last_call == T else "-sibling")
+        lc = last_change if isinstance(last_change, str) else \
+            f"{last_change[0]}-{last_change[1]}@{rel(last_change[2], T)}"
+        mech = f"kind={kind}:step={label}:change={lc}:prior={pr}"
+        info = (f"history on one {envkind} environment (async={is_async}), {kind} family; steps so far "
+                f"{trace}; now {label} of {T} by {source!r} {templates or ''}")
+        full = dict(spec, failing_step=len(trace))
+        if exp_allowed:
+            if sec or not invoked:
+                ctx.violation("history-wrongly-blocked:" + mech,
+                              f"{info}: nothing in force forbids it (active marks {sorted(active)}) but "
+                              f"invocations={invoked}, outcome {exc}", full)
+                return False
+        else:
+            if invoked:
+                ctx.violation("history-invoked:" + mech,
+                              f"{info}: forbidden by {sorted(active)} at this moment but it was invoked "
+                              f"{invoked}x; outcome {exc or 'rendered'}", full)
+                return False
+            if not sec:
+                ctx.violation("history-no-security-error:" + mech,
+                              f"{info}: forbidden by {sorted(active)} but the outcome was {exc or 'rendered'} "
+                              f"instead of SecurityError", full)
+                return False
+        return True
+
+    def note(T, exp_allowed):
+        nonlocal last_call
+        new = "allowed" if exp_allowed else "blocked"
+        for U, old in prior.items():
+            if old != new:
+                flips["block_to_allow" if exp_allowed else "allow_to_block"] += 1
+                break
+        prior[T] = new
+        last_call = T
+
+    for step in spec["steps"]:
+        op = step[0]
+        if op == "mark":
+            c = (step[1], step[2])
+            if c not in active and c in changes_for(kind, envkind):
+                active[c] = set_mark(fam, env, *c)
+                last_change = ("mark", step[1], step[2])
+                trace.append(step)
+        elif op == "unmark":
+            c = (step[1], step[2])
+            if active.get(c) is not None:
+                active.pop(c)()
+                last_change = ("unmark", step[1], step[2])
+                trace.append(step)
+        elif op == "call":
+            T = step[1]
+            source, templates = compose(tcs[step[2]])
+            fam.reset()
+            _, exc = hist_render(env, cache, source, templates, fam.data(T))
+            nrender += 1
+            exp = allowed(T)
+            ok = judge(T, exp, fam.t[T].rec.calls, exc, source, templates, "call")
+            trace.append(step + ["allowed" if exp else "forbidden"])
+            if count and ok:
+                ctx.count("history_allowed_calls" if exp else "history_security_errors")
+            note(T, exp)
+        elif op == "call2":
+            first, second = step[1][0], step[1][1]
+            source = compose2(*forms[step[2]])
+            fam.reset()
+            _, exc = hist_render(env, cache, source, {}, fam.data2(first, second))
+            nrender += 1
+            e1, e2 = allowed(first), allowed(second)
+            inv1, inv2 = fam.t[first].rec.calls, fam.t[second].rec.calls
+            if fam.t[first].rec is fam.t[second].rec:
+                # one shared function (staticmethod): the verdicts coincide
+                ok = judge(first, e1, inv1, exc, source, {}, "one-render-first")
+                note(first, e1)
+            elif not e1:
+                # the render stops at the first call; the second is never reached
+                ok = judge(first, False, inv1, exc, source, {}, "one-render-first")
+                note(first, False)
+                if inv2:
+                    ctx.violation(f"history-invoked:kind={kind}:step=one-render-after-refusal",
+                                  f"{source!r}: the first call is forbidden by {sorted(active)}, yet the "
+                                  f"second callable ran {inv2}x (outcome {exc or 'rendered'})",
+                                  dict(spec, failing_step=len(trace)))
+                    ok = False
+            else:
+                ok = judge(first, True, inv1, exc if e2 else None, source, {}, "one-render-first")
+                note(first, True)
+                ok = judge(second, e2, inv2, exc, source, {}, "one-render-second") and ok
+                note(second, e2)
+            trace.append(step + ["allowed" if e1 else "forbidden",
+                                 "allowed" if e2 else "forbidden"])
+            if count and ok:
+                ctx.count("history_allowed_calls" if e1 and e2 else "history_security_errors")
+                ctx.count("history_one_render_steps")
+        elif op == "other":
+            source, templates = compose(tcs[step[1]])
+            for other, exp in ((fam_ok, True), (fam_bad, False)):
+                for T in "AB":
+                    other.reset()
+                    fam.reset()
+                    _, exc = hist_render(env, cache, source, templates, other.data(T))
+                    nrender += 1
+                    saved = last_change
+                    last_change = "unrelated-family"
+                    ok = judge(T, exp, other.t[T].rec.calls, exc, source, templates,
+                               "other-" + ("safe" if exp else "marked"))
+                    last_change = saved
+                    if count and ok:
+                        ctx.count("history_allowed_calls" if exp else "history_security_errors")
+            trace.append(step)
+        else:
+            raise AssertionError(step)
+    if count:
+        ctx.ev(nrender)
+        ctx.count("history_cases")
+        ctx.count("history_renders", nrender)
+        ctx.count("history_kind:" + kind)
+        ctx.count("history_verdict_flips_allow_to_block", flips["allow_to_block"])
+        ctx.count("history_verdict_flips_block_to_allow", flips["block_to_allow"])
+        if is_async:
+            ctx.count("history_async_cases")
+        if envkind == "override":
+            ctx.count("history_override_env_cases")
+        ctx.dist(["hist", kind, envkind, is_async, spec["steps"],
+                  [tcs[i] for i in used_tc], [forms[i] for i in used_f]])
+    return True
+
+
 def run(ctx):
     import warnings
 
@@ -498,6 +1062,34 @@ def run(ctx):
             sampled += 1
             ctx.sample(dict(case, source=compose(case)[0]))
     ctx.count("base_cases", nbase)
+    # histories: the enumerated (kind x env x change x pattern) core, then random ones
+    hsampled = 0
+    nh = 0
+    for i, (kind, envkind, is_async, change, pattern) in enumerate(history_index()):
+        if not ctx.mine(i):
+            continue
+        rng = ctx.rng(f"hist{i}")
+        X = change[1] if change[1] != "shared" else "AB"[i % 2]
+        Y = "B" if X == "A" else "A"
+        spec = build_history(rng, kind, envkind, is_async, pattern_steps(pattern, change, X, Y))
+        spec["pattern"] = pattern
+        if run_history(ctx, spec):
+            nh += 1
+            ctx.count("history_pattern:" + pattern)
+            if hsampled < 1 and ctx.shard in (3, 4):
+                hsampled += 1
+                ctx.sample(spec)
+    ctx.count("history_enumerated", nh)
+    rng = ctx.rng("randhist")
+    n_max = 70 if quick else 4000
+    i = 0
+    while i < n_max and (i < 30 or ctx.elapsed() < 0.6 * ctx.budget_s):
+        spec = random_history(rng)
+        if run_history(ctx, spec) and hsampled < 2 and ctx.shard in (3, 4):
+            hsampled += 1
+            ctx.sample(spec)
+        i += 1
+    ctx.count("history_random", i)
     rng = ctx.rng("rand")
     n_max = 900 if quick else 40000
     i = 0
@@ -515,4 +1107,7 @@ def replay(ctx, case):
     import warnings
 
     warnings.simplefilter("ignore")
-    run_case(ctx, case, count=False)
+    if case.get("hist"):
+        run_history(ctx, case, count=False)
+    else:
+        run_case(ctx, case, count=False)
